@@ -155,6 +155,8 @@ theorem validateDictKey_doc (T : KeyTables) (hT : KeyTablesWf T) (kty : String) 
   intro u h1
   cases u
   have hty := validateKeyRegistry_typed _ d h1
+  apply Doc.bind (Doc.ensure _ _ rfl)
+  intro _ _
   apply Doc.bind (validateKeyRegistry_doc _ d)
   intro _ _
   unfold validateUseOps
